@@ -201,3 +201,20 @@ MANIFEST_TEXT = {
                     'allocation wraps while ids are live. Oracle: reference allocator over must-live / maybe-live sets.',
             'note': '_maximum_stream_id / _current_stream_id knobs set by the harness, as the suite does'},
 }
+
+MANIFEST_TEXT.update({
+    'C07': {'text': 'exploration: ' + _EXPL + ', over cancel-, error- and close-heavy scenario mixes. Oracle: subscriber signal '
+                    'grammar on_subscribe (on_next)* (terminal)? with nothing after it, request-response awaitables resolved '
+                    'exactly once by the end of the run (the final close included), no InvalidStateError inside the library.',
+            'note': 'recording subscribers and futures of the harness; histories are sampled, not bounded-exhaustive'},
+    'C09': {'text': 'exploration + fault-point enumeration: seeded cancel-heavy runs, plus a cancel-moment sweep that re-runs a '
+                    'base scenario once per loop iteration between the request and its termination with cancel() placed '
+                    'exactly there. Oracle: one CANCEL, silence at the canceller afterwards, producer cancelled / production '
+                    'stopped on the peer unless it had already finished.',
+            'note': 'request-response: zero CANCEL frames accepted when the response is pulled in the same or next loop iteration as cancel()'},
+    'C11': {'text': 'fault enumeration: for each base scenario every byte offset of each direction x {EOF, reset} and close() by '
+                    'either side at every loop iteration is visited (stride-subsampled above a cap, reported), plus a seeded '
+                    'swarm. Oracle after the settle window: nothing requested before the loss is left pending, producers '
+                    'cancelled, on_close exactly once per endpoint, no frame queued or written afterwards, tasks finished.',
+            'note': 'ByteLink cuts only (anchor transports/tcp.py); interactions started after the fault fired are not judged'},
+})
